@@ -247,7 +247,7 @@ theorem Inv_BackOK {L : Log} (h : Inv L) : BackOK (flat L) := by
   induction L with
   | nil => exact True.intro
   | cons t older ih =>
-    obtain ⟨hr, _, hi⟩ := h
+    obtain ⟨hr, _, _, hi⟩ := h
     simp only [flat]
     apply BackOK_append _ (ih hi)
     intro r hr' b hb
